@@ -109,7 +109,7 @@ func runWorker(tier string, k, n int, deadline time.Time) {
 
 // runPermWorker is the serial non-administrator part. Its scratch directory is
 // directly below /dev/shm because every ancestor must be searchable by others.
-func runPermWorker() {
+func runPermWorker(tier string) {
 	base := fmt.Sprintf("/dev/shm/avfs-verif-c14p-%d", os.Getpid())
 	R := base + "/w"
 
@@ -132,7 +132,7 @@ func runPermWorker() {
 	} else if err := os.Chmod(base, 0o755); err != nil {
 		harness = err.Error()
 	} else {
-		harness = runPerm(c)
+		harness = runPerm(c, tier)
 	}
 
 	cleanup(base)
@@ -164,7 +164,7 @@ func main() {
 	}
 
 	if *perm {
-		runPermWorker()
+		runPermWorker(*tier)
 
 		return
 	}
@@ -368,7 +368,7 @@ func main() {
 		prefix++
 	}
 
-	exhaustive := prefix == len(trees) && !*noPerm && permDone == len(permScenarios()) && len(buildFailed) == 0
+	exhaustive := prefix == len(trees) && !*noPerm && permDone == len(permScenarios(*tier)) && len(buildFailed) == 0
 
 	totStates, totEvals := 0, 0
 	for _, v := range states {
@@ -399,8 +399,8 @@ func main() {
 
 	sort.Slice(sc, func(i, j int) bool { return sc[i].Sig < sc[j].Sig })
 
-	bound := fmt.Sprintf("%s; trees in canonical order: %d of %d completed (first %d contiguous); non-administrator scenarios %d of %d",
-		u.Label, len(done), len(trees), prefix, permDone, len(permScenarios()))
+	bound := fmt.Sprintf("%s; trees in canonical order: %d of %d completed (first %d contiguous); non-administrator scenarios %d of %d (one directory of mode 0000/0111/0444; regular files reachable but not readable, modes %s, also below such a directory)",
+		u.Label, len(done), len(trees), prefix, permDone, len(permScenarios(*tier)), permModeNames(*tier))
 
 	// harness errors are never a verdict: no VIOLATION lines then
 	code := 0
@@ -445,14 +445,14 @@ func main() {
 			"name-shape trees: names are byte strings; tmpfs accepts every name of the alphabet (0x7f, U+10FFFF and the byte 0xff, which is not UTF-8, included) and os.ReadDir / filepath.Glob / filepath.WalkDir list them in byte order; these trees hold files and directories only (every file system gets them), with creation modes; patterns without a literal prefix other than * and patterns with empty segments are left to the plain trees; in signatures and replay files bytes outside printable ASCII are written <xx> / <U+XXXX> (replay files carry the exact bytes in *_hex fields)",
 			"mode trees: modes are given with Chmod after creation (not with the perm argument of Mkdir/OpenFile, whose handling of special bits belongs to C01/C03); a tree whose mode the scratch file system does not keep is a harness error; everything is owned by root",
 			"helpers are only held to their documented meaning: Exists <=> Stat succeeds, DirExists <=> Stat succeeds and is a directory, IsDir = Stat, IsEmpty = no entries / size 0; which error accompanies a false answer is not compared",
-			"non-administrator part: MemFS view (Sub(\"/\") + SetUser) versus the kernel under setfsuid/setfsgid with supplementary groups dropped on a locked thread; small fixed family of trees with one directory of mode 0000/0111/0444",
+			"non-administrator part: MemFS view (Sub(\"/\") + SetUser) versus the kernel under setfsuid/setfsgid with supplementary groups dropped on a locked thread; small fixed family of trees, all owned by root and asked by a user of the others class: one directory of mode 0000/0111/0444 (top, nested, first, last, behind a symbolic link); regular files that can be reached and Stat'ed but not read - with content and empty, at the top and below a directory, behind a symbolic link - every one of the tree in one mode of the alphabet 0600/0622/0000 (thorough: + 0200, 0711); such files below a directory of mode 0000/0111/0444 with a file of the other mode beside it (thorough: every pair of file modes). Every scenario gets the full query set of the quick universe (Glob, ReadDir, WalkDir against the kernel as the same user; Exists, DirExists, IsDir, IsEmpty against Stat/ReadDir of the same view as the same user: a file's emptiness is its Stat size, no read permission needed; a directory's needs ReadDir). Ownership by the asking user or its group is not varied here (C03)",
 		},
 		Violations: rep.NewCount(),
 	})
 
 	fmt.Printf("C14 %s: trees=%d/%d states=%d evaluations=%d (Glob %d, ReadDir %d, WalkDir %d, helpers %d) oracle-classes=%d nonadmin-scenarios=%d/%d violation-instances=%d signatures=%d exhaustive=%v wall=%.1fs\n",
 		*tier, len(done), len(trees), totStates, totEvals, evals["Glob"], evals["ReadDir"], evals["WalkDir"], evals["helpers"],
-		len(classes), permDone, len(permScenarios()), instances, len(inst), exhaustive, ev.Elapsed())
+		len(classes), permDone, len(permScenarios(*tier)), instances, len(inst), exhaustive, ev.Elapsed())
 
 	if len(harness) > 0 {
 		for _, h := range harness {
